@@ -4,6 +4,7 @@ EXTENDS TextIdx
 
 c_Docs3 == <<"d1", "d2", "d3">>
 c_Docs2 == <<"d1", "d2">>
+c_Docs1 == <<"d1">>
 c_None  == {}
 c_AddNone == {NONE}
 c_AddBoth == {NONE, NUM}
